@@ -2,6 +2,7 @@ import OnlVerif.Lemmas.TcpSink
 import OnlVerif.Lemmas.TcpSender
 import OnlVerif.Lemmas.TcpLoop
 import OnlVerif.Lemmas.TcpLiveQuiet
+import OnlVerif.Lemmas.TcpLiveRun
 /-!
 # C16 — TCP acknowledgements are cumulative and correct; all data gets through
 
@@ -249,6 +250,33 @@ theorem liveness_invariant (kind : CCKind) (cc : CCState ℚ) (rtt : ℚ) (mss n
   refine ⟨h.s.tm, h.s.blk, h.s.finished, fun a ha => ⟨(h.acks a ha).ge, (h.acks a ha).timed⟩, ?_, h.lap, h.s.la_le, h.s.ns_le⟩
   rw [← hmss]
   exact h.seg
+
+/-! ### liveness: no dead end -/
+
+/-- **No reachable state is a dead end: losses can delay the transfer but never wedge it.**  Under the hypotheses of
+`quiescent_implies_complete`, from **every** state `l` of the closed loop that is reachable by any interleaving and any
+losses there is a finite sequence `acts` of loop actions **without any further loss** (`noDrop`: no `dropData`, no
+`dropAck`) that is accepted action by action and ends in a state that is quiescent (the run is over) with
+`sink = [(0, n)]` and `last_ack = n`.  The witness is constructive: any fair schedule works - deliver what is in
+flight, resume `run` when it is scheduled, let due timers fire, advance the clock to the next timer only when nothing
+else can happen (`Loop.Fair`); each such step decreases the lexicographic measure `TcpLive.mu`. -/
+theorem can_always_complete (kind : CCKind) (cc : CCState ℚ) (rtt : ℚ) (mss n : Nat) (now : ℚ)
+    (hcc : CCInv kind cc) (hrtt : 0 < rtt) (hn : 0 < n) (hm : 0 < mss) (hd : mss ∣ n) (hc : (mss : ℚ) ≤ cc.mss)
+    (l : Loop ℚ) (hr : LReach (Loop.init (Sender.init kind cc rtt mss (some n) now)) l) :
+    ∃ acts l', (∀ a ∈ acts, a.noDrop = true) ∧ l.run acts = some l' ∧ l'.Quiescent ∧
+      l'.sink = [(0, n)] ∧ l'.snd.last_ack = n := by
+  obtain ⟨acts, l', h1, h2, h3, h4⟩ :=
+    can_complete (reach_LInv (LInv_init (fresh_init kind cc rtt mss n now hcc hrtt hn hm hd hc)) hr)
+  exact ⟨acts, l', h1, h2, h3, h4.1, h4.2⟩
+
+/-- **while the run is not over something can happen**: in every reachable state that is not quiescent, some action
+of the fair discipline (a delivery, an ACK arrival, a resumption of `run`, a token hand-off, the expiry of a due timer,
+or - when none of these is possible - the advance of the clock to the next timer) is accepted -/
+theorem never_stuck (kind : CCKind) (cc : CCState ℚ) (rtt : ℚ) (mss n : Nat) (now : ℚ)
+    (hcc : CCInv kind cc) (hrtt : 0 < rtt) (hn : 0 < n) (hm : 0 < mss) (hd : mss ∣ n) (hc : (mss : ℚ) ≤ cc.mss)
+    (l : Loop ℚ) (hr : LReach (Loop.init (Sender.init kind cc rtt mss (some n) now)) l) (hq : ¬ l.Quiescent) :
+    ∃ a l', Loop.Fair l a ∧ l.step a = some l' :=
+  fair_progress (reach_LInv (LInv_init (fresh_init kind cc rtt mss n now hcc hrtt hn hm hd hc)) hr) hq
 
 /-
 **Not proved — closed-loop liveness.**  Full statement:
